@@ -220,3 +220,68 @@ func apiCase(prop, tag string, stmts []string, extra map[string][2]string) Case 
 	script, spec := instantiate(stmts, "USD", extra)
 	return Case{ID: prop + " " + strings.ReplaceAll(script, "\n", " "), Pkg: "", Fn: "ZZAPI", Args: []string{prop, script, spec}, Tag: tag}
 }
+
+// observed returns the case with one trailing statement per declared monetary /
+// portion variable that uses the variable again (`send $v` from @world to a fresh
+// account, a two-way split by `$p`). Any corruption of a variable's value by an
+// earlier statement (in-place arithmetic on storage shared with the variable)
+// then shows in the postings the property's own assertions compare.
+func observed(c Case) Case {
+	if len(c.Args) < 3 || !strings.HasPrefix(c.Args[1], "vars {") {
+		return c
+	}
+	script := c.Args[1]
+	end := strings.Index(script, "\n}\n")
+	if end < 0 {
+		return c
+	}
+	var extra []string
+	for _, line := range strings.Split(script[len("vars {"):end], "\n") {
+		f := strings.Fields(line)
+		if len(f) != 2 || !strings.HasPrefix(f[1], "$") {
+			continue
+		}
+		switch f[0] {
+		case "monetary":
+			extra = append(extra, "send "+f[1]+" (\n  source = @world\n  destination = @zzo\n)")
+		case "portion":
+			extra = append(extra, "send [USD 7] (\n  source = @world\n  destination = { "+f[1]+" to @zzp remaining to @zzq }\n)")
+		}
+	}
+	if len(extra) == 0 {
+		return c
+	}
+	out := c
+	out.Args = append([]string{}, c.Args...)
+	out.Args[1] = script + "\n" + strings.Join(extra, "\n")
+	out.ID = c.ID + " +observers"
+	out.Tag = "variables-used-again/" + c.Tag
+	return out
+}
+
+// withObserved appends the observed variant of every k-th case that declares variables.
+func withObserved(cases []Case, k int) []Case {
+	out := cases
+	n := 0
+	for _, c := range cases {
+		o := observed(c)
+		if o.ID == c.ID {
+			continue
+		}
+		if n%k == 0 {
+			out = append(out, o)
+		}
+		n++
+	}
+	return out
+}
+
+func thinCases(cs []Case, k int) []Case {
+	var out []Case
+	for i, c := range cs {
+		if i%k == 0 {
+			out = append(out, c)
+		}
+	}
+	return out
+}
